@@ -17,6 +17,14 @@ numba kernel memthick.find_matches_parallel (call monitor + driver):
   kernel_boundscheck 1-thread kernel call under NUMBA_BOUNDSCHECK=1 completes (a bounds error surfaces as SystemError/IndexError);
                      counted only if a toy prange kernel proves at start-up that the bounds sanitizer is alive in this process
   kernel_threads     outputs of a 1-thread and an N-thread run (numba.set_num_threads in one process) are bit-identical
+Assignment step memthick.process_matches_cpu2cpu (call monitor; driven directly with explicit candidate lists):
+  assignment_greedy  on a list [(dist, source, target), ..]: pairs from the list, no target twice, thickness = dist*voxel, nothing
+                     left over, no closer unmatched candidate, and (no conflicting distances within 1e-9 relative) equal to the
+                     reference greedy; lists carry planted conflicts whose distances differ by 6e-9 .. 9e-7 in both index orders
+Planted input classes (round 5): block_counts (source/target counts 2**k-1, 2**k, 2**k+1, k=4..9, total up to 600; also swept in
+extra()), near_ties (geometric conflicts with distance gaps 4e-9*max .. 9e-7 voxel), dense_even (wide cone over an even dense
+sheet: 16..24 candidates per source, several rigid motions per case), exact_duplicates (coincident points), far offsets (1e5),
+and every case is a history on caller-owned arrays that are modified in place between the calls.
 """
 import logging
 import os
@@ -33,7 +41,12 @@ RULE = ("cases = generated point sets (20..600 points, quick tier mostly <= 200,
         "labels natural/swapped/arbitrary/partial/overlapping, random index order, voxel size 0.3..15, max_angle 1..30 deg, "
         "max_thickness 0.9..2.2 x sheet separation, both directions; regenerated when a source has >= 25 candidates, when any "
         "source-target pair lies within 1e-9 (relative) of the range or cone boundary, or when two conflicting admissible pairs "
-        "tie in distance within 1e-9; non-trivial = at least 3 admissible pairs, at least one target contested by two sources and "
+        "tie in distance within 1e-9 (class exact_duplicates keeps its exact ties: relational and reference-greedy clauses are then not "
+        "judged); planted classes: block_counts (sheet sizes 2**k-1, 2**k, 2**k+1 for k=4..9 and total 600), near_ties (conflicting "
+        "candidates 4e-9*max_range..9e-7 voxel apart, both index orders), dense_even (25..30 deg cone over an even sheet, mean > 16 "
+        "candidates per source, all < 25), exact_duplicates, coordinate offsets up to 1.1e5 in 15% of the cases; every case is a "
+        "history of calls on caller-owned arrays modified in place; plus one explicit candidate list per case for the assignment step; "
+        "non-trivial = at least 3 admissible pairs, at least one target contested by two sources and "
         "at least one in-range pair rejected by the cone or the forward test; distinct by digest of "
         "(n, sources, targets, parameters, class, admissible-set statistics, first point)")
 ASSUMPTIONS = [
@@ -53,13 +66,20 @@ ASSUMPTIONS = [
     "rigid_motion/voxel_scaling/greedy_reference need the greedy order to be unique: cases with a distance tie (1e-9 relative) "
     "between admissible pairs sharing a source or a target are excluded (the property does not fix tie-breaking)",
     "find_matches_parallel is declared without cache=True (NullCache): every process compiles the source it imported",
+    "process_matches_cpu2cpu is the CPU path's assignment step (anchor): it is additionally driven directly with explicit candidate "
+    "lists (distances 3..12, sources/targets separate name spaces); conflicting candidates closer than 1e-9 relative are treated as ties",
+    "the arrays handed to measure_thickness_cpu / the kernel are owned by the driver and modified IN PLACE between the calls of a case "
+    "(rigid motion, restore, label flips, point moves); every call is judged on the values the arrays hold at that moment",
 ]
 
 CLASSES = ["parallel", "tilted", "curved", "wavy", "sandwich", "flipped_normals", "arbitrary_labels", "partial_overlap_labels",
-           "thin_range", "narrow_cone", "wide_cone", "dense", "small_n", "large_n", "tight_capacity"]
+           "thin_range", "narrow_cone", "wide_cone", "dense", "small_n", "large_n", "tight_capacity",
+           "block_counts", "near_ties", "dense_even", "exact_duplicates"]
+BLOCK_VALUES = [v for k in range(4, 10) for v in (2 ** k - 1, 2 ** k, 2 ** k + 1)]
 MON_CPU = ["pairs_admissible", "one_to_one", "thickness_value", "greedy_maximal", "greedy_reference"]
 MON_REL = ["rigid_motion", "voxel_scaling", "direction_swap"]
 MON_KER = ["kernel_candidates", "kernel_boundscheck", "kernel_threads"]
+MON_ASG = ["assignment_greedy"]
 EPS = 1e-9
 CAP = 25
 
@@ -67,14 +87,14 @@ CAP = 25
 def plan(tier):
     env = {"NUMBA_BOUNDSCHECK": "1", "OMP_WAIT_POLICY": "passive"}
     if tier == "quick":
-        return dict(n_cases=180, shards=2, classes=CLASSES, timeout_s=900, env=env,
-                    min_evals={"pairs_admissible": 600, "one_to_one": 600, "thickness_value": 600, "greedy_maximal": 600,
-                               "greedy_reference": 550, "rigid_motion": 140, "voxel_scaling": 140, "direction_swap": 140,
-                               "kernel_candidates": 300, "kernel_boundscheck": 140, "kernel_threads": 140})
-    return dict(n_cases=1800, shards=16, classes=CLASSES, timeout_s=3000, env=env,
-                min_evals={"pairs_admissible": 6000, "one_to_one": 6000, "thickness_value": 6000, "greedy_maximal": 6000,
-                           "greedy_reference": 5500, "rigid_motion": 1500, "voxel_scaling": 1500, "direction_swap": 1500,
-                           "kernel_candidates": 3000, "kernel_boundscheck": 1500, "kernel_threads": 1500})
+        return dict(n_cases=266, shards=3, classes=CLASSES, timeout_s=900, env=env,
+                    min_evals={"pairs_admissible": 1000, "one_to_one": 1000, "thickness_value": 1000, "greedy_maximal": 1000,
+                               "greedy_reference": 900, "rigid_motion": 250, "voxel_scaling": 200, "direction_swap": 200,
+                               "kernel_candidates": 600, "kernel_boundscheck": 300, "kernel_threads": 300, "assignment_greedy": 250})
+    return dict(n_cases=1824, shards=16, classes=CLASSES, timeout_s=3000, env=env,
+                min_evals={"pairs_admissible": 7000, "one_to_one": 7000, "thickness_value": 7000, "greedy_maximal": 7000,
+                           "greedy_reference": 6500, "rigid_motion": 1800, "voxel_scaling": 1400, "direction_swap": 1400,
+                           "kernel_candidates": 3500, "kernel_boundscheck": 1700, "kernel_threads": 1700, "assignment_greedy": 1800})
 
 
 # ---- call monitor: measure_thickness_cpu ---------------------------------------------------------
@@ -142,6 +162,27 @@ def _post_cpu(ctx, A, old, result):
                        ("inrange_pairs_behind_source_seen", "inrange_behind"), ("pairs_in_backward_cone_seen", "behind_in_backward_cone"),
                        ("pairs_in_cone_beyond_range_seen", "out_of_range_in_cone")):
         ctx.extra[k_ex] = ctx.extra.get(k_ex, 0) + st[k_st]
+    cc = T.cand_counts()
+    mean_c = float(cc.mean()) if cc.size else 0.0
+    if mean_c > 16.0:
+        ctx.extra["cpu_calls_with_mean_candidates_per_source_gt_16"] = ctx.extra.get("cpu_calls_with_mean_candidates_per_source_gt_16", 0) + 1
+        for v_, n_ in zip(*np.unique(cc, return_counts=True)):
+            kk = "dense_calls_sources_with_%02d_candidates" % int(v_)
+            ctx.extra[kk] = ctx.extra.get(kk, 0) + int(n_)
+    for role, cnt in (("sources", len(T.src)), ("targets", len(T.tgt))):
+        if cnt in BLOCK_VALUES:
+            kk = "cpu_calls_with_%s_=_%d" % (role, cnt)
+            ctx.extra[kk] = ctx.extra.get(kk, 0) + 1
+    if T.n == 600:
+        ctx.extra["cpu_calls_with_600_points"] = ctx.extra.get("cpu_calls_with_600_points", 0) + 1
+    if T.A.any():
+        M = np.where(T.A, T.D, np.inf)
+        ng = 0
+        for ax in (0, 1):
+            dd = np.diff(np.sort(M, axis=ax), axis=ax)
+            ng += int((np.isfinite(dd) & (dd < 1e-6) & (dd >= EPS * T.max_vox)).sum())
+        if ng:
+            ctx.extra["cpu_conflicting_pairs_with_gap_below_1e-6_voxel_judged"] = ctx.extra.get("cpu_conflicting_pairs_with_gap_below_1e-6_voxel_judged", 0) + ng
     ctx.extra["pairs_returned_judged"] = ctx.extra.get("pairs_returned_judged", 0) + (int(np.count_nonzero(valid)) if valid.shape == (T.n,) else 0)
     if not info["unique"] or valid.shape != (T.n,) or pairs.shape != (T.n,):
         ctx.ood("greedy_reference")
@@ -195,7 +236,40 @@ def _post_kernel(ctx, A, old, result):
     if w is not None:
         w = dict(w, n=T.n, max_angle=T.max_angle, max_vox=T.max_vox, capacity=cap, threads=ctx.numba.get_num_threads())
     ctx.check("kernel_candidates", w is None, w)
+    for role, cnt in (("sources", len(T.src)), ("targets", len(T.tgt))):
+        if cnt in BLOCK_VALUES:
+            kk = "kernel_calls_with_%s_=_%d" % (role, cnt)
+            ctx.extra[kk] = ctx.extra.get(kk, 0) + 1
+    if T.n == 600:
+        ctx.extra["kernel_calls_with_600_points"] = ctx.extra.get("kernel_calls_with_600_points", 0) + 1
     ctx.extra["kernel_candidates_seen"] = ctx.extra.get("kernel_candidates_seen", 0) + int(T.A.sum())
+
+
+# ---- call monitor: process_matches_cpu2cpu -------------------------------------------------------
+def _app_asg(A):
+    try:
+        fm = A["flat_matches"]
+        n = int(A["n_points"]); v = float(A["voxel_size"])
+        if not isinstance(fm, list) or not (1 <= len(fm) <= 20000) or n < 1 or not (v > 0 and np.isfinite(v)):
+            return False
+        arr = np.array([(float(d), int(s_), int(t_)) for d, s_, t_ in fm], dtype=np.float64)
+        return bool(np.isfinite(arr).all() and (arr[:, 0] > 0).all() and (arr[:, 1:] >= 0).all() and (arr[:, 1:] < n).all())
+    except Exception:
+        return False
+
+
+def _snap_asg(A):
+    # the function sorts the caller's list in place: copy the candidates before the call
+    return {"cands": [(float(d), int(s_), int(t_)) for d, s_, t_ in A["flat_matches"]], "n": int(A["n_points"]), "voxel": float(A["voxel_size"])}
+
+
+def _post_asg(ctx, A, old, result):
+    w, unique = orc.judge_assignment(old["cands"], old["n"], old["voxel"], result, rel_tie=EPS)
+    if w is not None:
+        w = dict(w, n_candidates=len(old["cands"]), n_points=old["n"], voxel=old["voxel"], greedy_order_unique=unique)
+    ctx.check("assignment_greedy", w is None, w)
+    k = "assignment_lists_with_unique_order" if unique else "assignment_lists_with_ties"
+    ctx.extra[k] = ctx.extra.get(k, 0) + 1
 
 
 # ---- setup ---------------------------------------------------------------------------------------
@@ -235,7 +309,7 @@ def setup(ctx):
     log.setLevel(logging.CRITICAL + 1)
     log.propagate = False
     ctx.log = log
-    ctx.declare(*(MON_CPU + MON_REL + MON_KER))
+    ctx.declare(*(MON_CPU + MON_REL + MON_KER + MON_ASG))
     disp = memthick.find_matches_parallel
     ctx.extra["kernel_is_numba_dispatcher"] = bool(hasattr(disp, "py_func"))
     ctx.extra["kernel_cache"] = type(getattr(disp, "_cache", None)).__name__
@@ -259,12 +333,13 @@ def setup(ctx):
     ctx.notes.append("CUDA twin find_all_possible_matches_kernel / measure_thickness_gpu: not executed (no GPU)")
     f1 = monitors.wrap(ctx, memthick, "measure_thickness_cpu", "pairs_admissible", _post_cpu, _app_cpu, _snap_cpu)
     monitors.wrap(ctx, memthick, "find_matches_parallel", "kernel_candidates", _post_kernel, _app_kernel, _snap_kernel)
+    f3 = monitors.wrap(ctx, memthick, "process_matches_cpu2cpu", "assignment_greedy", _post_asg, _app_asg, _snap_asg)
     monitors.trace(ctx, [
         ("measure_thickness_cpu", f1, {"direction_2to1": "source_mask, target_mask = surface2_mask, surface1_mask",
                                        "direction_1to2": "source_mask, target_mask = surface1_mask, surface2_mask",
                                        "cone_accept": "flat_matches.append(",
                                        "cap_break(expected unreached: >= 25 candidates are outside the quantifier)": "break"}),
-        ("process_matches_cpu2cpu", memthick.process_matches_cpu2cpu, {"assign": "thickness_results[source_idx] = dist",
+        ("process_matches_cpu2cpu", f3, {"assign": "thickness_results[source_idx] = dist",
                                                                       }),
     ])
 
@@ -307,9 +382,13 @@ def _uv(rng, m, spacing, mode):
     return u, v
 
 
-def _build(rng, tier, cls):
+def _build(rng, tier, cls, ov=None):
+    """ov (block_counts): {"nA": sources-sheet size, "nB": target-sheet size, "direction": ...} - sheet A is the source surface"""
+    ov = ov or {}
     quick = tier == "quick"
-    if cls == "small_n":
+    if "nA" in ov:
+        n = ov["nA"] + ov["nB"]
+    elif cls == "small_n":
         n = int(rng.integers(20, 36))
     elif cls == "large_n":
         n = int(rng.integers(300, 601)) if not quick or rng.random() < 0.35 else int(rng.integers(260, 400))
@@ -319,6 +398,10 @@ def _build(rng, tier, cls):
         ang = 1.0 if rng.random() < 0.3 else float(rng.uniform(1.0, 2.5))
     elif cls == "wide_cone":
         ang = 30.0 if rng.random() < 0.3 else float(rng.uniform(18.0, 30.0))
+    elif cls == "block_counts":
+        ang = float(rng.uniform(8.0, 25.0))          # wide enough for the KD-tree ball to prune: cost stays small at 512..600 points
+    elif cls == "near_ties":
+        ang = float(np.exp(rng.uniform(np.log(3.0), np.log(30.0))))
     else:
         r = rng.random()
         ang = 3.0 if r < 0.15 else 5.0 if r < 0.3 else float(np.exp(rng.uniform(np.log(1.0), np.log(30.0))))
@@ -332,6 +415,8 @@ def _build(rng, tier, cls):
     nA = int(round(n * rng.uniform(0.35, 0.65)))
     nA = min(max(nA, 2), n - 2)
     nB = n - nA
+    if "nA" in ov:
+        nA, nB = ov["nA"], ov["nB"]
     shape = {"parallel": "plane", "tilted": "plane", "curved": "paraboloid", "wavy": "wavy"}.get(cls) or str(rng.choice(["plane", "plane", "paraboloid", "wavy"]))
     L = np.sqrt(max(nA, nB)) * spacing
     prm = {}
@@ -346,7 +431,7 @@ def _build(rng, tier, cls):
     SA, NA = _surface(shape, prm, uA, vA)
     SB, NB = _surface(shape, prm, uB, vB)
     side = np.ones(nB)
-    if cls == "sandwich" or (cls not in ("parallel", "tilted", "curved", "wavy") and rng.random() < 0.2):
+    if cls == "sandwich" or (cls not in ("parallel", "tilted", "curved", "wavy", "block_counts") and rng.random() < 0.2):
         side = np.where(rng.random(nB) < 0.5, 1.0, -1.0)
     dloc = d * (1.0 + 0.08 * np.sin(uB / max(L, 1e-9) * 3.0 + rng.uniform(0, 6.28)) + rng.normal(0, 0.03, nB))
     dloc = np.where(side > 0, dloc, dloc * rng.uniform(0.8, 1.2))
@@ -366,7 +451,12 @@ def _build(rng, tier, cls):
         Nr[fl] *= -1.0
         flipped = int(fl.sum())
     lab = "natural"
-    if cls == "arbitrary_labels" or (cls not in ("partial_overlap_labels",) and rng.random() < 0.2):
+    direction = "1to2" if rng.random() < 0.5 else "2to1"
+    if "nA" in ov:
+        direction = ov.get("direction", direction)
+        lab = "sheetA=source"
+        m1, m2 = (isA.copy(), ~isA) if direction == "1to2" else (~isA, isA.copy())
+    elif cls == "arbitrary_labels" or (cls not in ("partial_overlap_labels",) and rng.random() < 0.2):
         lab = "arbitrary"
         m1 = rng.random(n) < 0.5
         m2 = ~m1
@@ -388,15 +478,148 @@ def _build(rng, tier, cls):
         R0 = np.eye(3)
     else:
         R0 = so3.random_rotations(rng, 1)[0]
-    t0 = rng.uniform(0.0, 800.0, 3)
+    far = bool(rng.random() < 0.15)
+    t0 = rng.uniform(1.0e5, 1.1e5, 3) if far else rng.uniform(0.0, 800.0, 3)
     P = X @ R0.T + t0
     Nr = Nr @ R0.T
     Nr = Nr / np.linalg.norm(Nr, axis=1, keepdims=True)
-    direction = "1to2" if rng.random() < 0.5 else "2to1"
     return {"P": np.ascontiguousarray(P), "N": np.ascontiguousarray(Nr), "m1": np.ascontiguousarray(m1), "m2": np.ascontiguousarray(m2),
             "voxel": voxel, "max_nm": float(max_nm), "ang": float(ang), "direction": direction,
             "meta": {"n": n, "shape": shape, "labels": lab, "separation_vox": round(d, 4), "spacing_vox": round(float(spacing), 5),
-                     "normal_noise_deg": round(sigma, 4), "flipped_normals": flipped, "third_sheet": bool((side < 0).any()), "layout": mode}}
+                     "normal_noise_deg": round(sigma, 4), "flipped_normals": flipped, "third_sheet": bool((side < 0).any()), "layout": mode,
+                     "far_offset": far}}
+
+
+def _build_dense_even(rng, tier):
+    """Wide cone (25..30 deg) over an evenly sampled target sheet: per-source candidate counts around 16..24 (all < 25)."""
+    ang = 30.0 if rng.random() < 0.3 else float(rng.uniform(25.0, 30.0))
+    voxel = float(rng.choice([0.784, 1.0, 1.25, 1.35, 2.62, 13.48])) if rng.random() < 0.6 else float(rng.uniform(0.3, 15.0))
+    d = float(rng.uniform(3.0, 12.0))
+    max_vox = d * float(rng.uniform(1.3, 1.6))
+    lam = float(rng.uniform(17.6, 20.2))
+    rho = d * np.tan(np.radians(ang))
+    sp_t = rho * np.sqrt(np.pi / lam)
+    gs = int(rng.integers(2, 6)) if tier == "quick" else int(rng.integers(2, 9))
+    sp_s = sp_t * float(rng.uniform(1.15, 2.0))
+    ext = (gs - 1) * sp_s
+    gt = int(np.ceil((ext + 2.3 * rho) / sp_t)) + 1
+    while gs * gs + gt * gt > 600:
+        gs -= 1
+        ext = (gs - 1) * sp_s
+        gt = int(np.ceil((ext + 2.3 * rho) / sp_t)) + 1
+    jit = float(rng.uniform(0.02, 0.06)) * sp_t
+    gi, gj = np.meshgrid(np.arange(gs), np.arange(gs), indexing="ij")
+    XA = np.column_stack([(gi.ravel() - (gs - 1) / 2) * sp_s, (gj.ravel() - (gs - 1) / 2) * sp_s, np.zeros(gs * gs)])
+    XA[:, :2] += rng.uniform(-0.5, 0.5, 2) * sp_t
+    ti, tj = np.meshgrid(np.arange(gt), np.arange(gt), indexing="ij")
+    XB = np.column_stack([(ti.ravel() - (gt - 1) / 2) * sp_t, (tj.ravel() - (gt - 1) / 2) * sp_t, np.full(gt * gt, d)])
+    nA, nB = len(XA), len(XB)
+    XA = XA + rng.normal(0, jit, (nA, 3))
+    XB = XB + rng.normal(0, jit, (nB, 3))
+    X = np.vstack([XA, XB])
+    Nr = np.vstack([np.tile([0.0, 0.0, 1.0], (nA, 1)), np.tile([0.0, 0.0, -1.0], (nB, 1))])
+    sigma = float(rng.uniform(0.0, 0.5))
+    Nr = _perturb(rng, Nr, sigma)
+    isA = np.r_[np.ones(nA, bool), np.zeros(nB, bool)]
+    direction = "1to2" if rng.random() < 0.5 else "2to1"
+    m1, m2 = (isA.copy(), ~isA) if direction == "1to2" else (~isA, isA.copy())
+    n = nA + nB
+    perm = rng.permutation(n)
+    X, Nr, m1, m2 = X[perm], Nr[perm], m1[perm], m2[perm]
+    R0 = np.eye(3) if rng.random() < 0.25 else so3.random_rotations(rng, 1)[0]
+    far = bool(rng.random() < 0.15)
+    t0 = rng.uniform(1.0e5, 1.1e5, 3) if far else rng.uniform(0.0, 800.0, 3)
+    P = X @ R0.T + t0
+    Nr = Nr @ R0.T
+    Nr = Nr / np.linalg.norm(Nr, axis=1, keepdims=True)
+    return {"P": np.ascontiguousarray(P), "N": np.ascontiguousarray(Nr), "m1": np.ascontiguousarray(m1), "m2": np.ascontiguousarray(m2),
+            "voxel": voxel, "max_nm": float(max_vox * voxel), "ang": float(ang), "direction": direction,
+            "meta": {"n": n, "shape": "plane", "labels": "sheetA=source", "separation_vox": round(d, 4), "spacing_vox": round(float(sp_t), 5),
+                     "source_grid": gs, "target_grid": gt, "normal_noise_deg": round(sigma, 4), "flipped_normals": 0, "third_sheet": False,
+                     "layout": "even grid", "far_offset": far}}
+
+
+def _roles(c):
+    return (c["m1"], c["m2"]) if c["direction"] == "1to2" else (c["m2"], c["m1"])
+
+
+def _perp(rng, v):
+    e = np.cross(v, rng.normal(size=3))
+    return e / np.linalg.norm(e)
+
+
+def _plant_near_ties(rng, c):
+    """Move a few points so that two CONFLICTING admissible pairs (same source / two targets, or two sources / same target) differ
+    in distance by gap in [4e-9*max_range, 9e-7] voxel - far above float64 round-off (~1e-13 here) and above the 1e-9 tie
+    exclusion - with the FARTHER pair carrying the lower point index in half of the plants and the higher one in the others."""
+    P, N = c["P"], c["N"]
+    srcm, tgtm = _roles(c)
+    only_s = np.flatnonzero(srcm & ~tgtm)
+    only_t = np.flatnonzero(tgtm & ~srcm)
+    max_vox = c["max_nm"] / c["voxel"]
+    used = set()
+    plants = []
+    k_max = int(min(8, len(only_s) // 3, len(only_t) // 3))
+    for k in range(k_max):
+        gap = float(np.exp(rng.uniform(np.log(max(4e-9 * max_vox, 6e-9)), np.log(9e-7))))
+        r0 = float(rng.uniform(0.5, 0.88)) * max_vox
+        a = np.radians(float(rng.uniform(0.25, 0.7)) * c["ang"])
+        far_low = bool(k % 2 == 0) if rng.random() < 0.8 else bool(rng.random() < 0.5)
+        free_s = [x for x in only_s if x not in used]
+        free_t = [x for x in only_t if x not in used]
+        if k % 3 != 2:
+            if len(free_s) < 1 or len(free_t) < 2:
+                break
+            s0 = int(free_s[int(rng.integers(0, len(free_s)))])
+            dd = np.linalg.norm(P[free_t] - P[s0], axis=1)
+            t_a, t_b = sorted(int(free_t[j]) for j in np.argsort(dd)[:2])
+            t_far, t_near = (t_a, t_b) if far_low else (t_b, t_a)
+            e = _perp(rng, N[s0])
+            P[t_far] = P[s0] + (r0 + gap) * (np.cos(a) * N[s0] + np.sin(a) * e)
+            P[t_near] = P[s0] + r0 * (np.cos(a) * N[s0] - np.sin(a) * e)
+            used.update([s0, t_a, t_b])
+            plants.append({"kind": "one source, two targets", "gap": gap, "farther_has_lower_index": far_low})
+        else:
+            if len(free_s) < 2 or len(free_t) < 1:
+                break
+            t0 = int(free_t[int(rng.integers(0, len(free_t)))])
+            dd = np.linalg.norm(P[free_s] - P[t0], axis=1)
+            s_a, s_b = sorted(int(free_s[j]) for j in np.argsort(dd)[:2])
+            s_far, s_near = (s_a, s_b) if far_low else (s_b, s_a)
+            m = N[s_a].copy()
+            e = _perp(rng, m)
+            N[s_b] = m
+            P[s_far] = P[t0] - (r0 + gap) * (np.cos(a) * m + np.sin(a) * e)
+            P[s_near] = P[t0] - r0 * (np.cos(a) * m - np.sin(a) * e)
+            used.update([t0, s_a, s_b])
+            plants.append({"kind": "two sources, one target", "gap": gap, "farther_has_lower_index": far_low})
+    c["near_tie_plants"] = plants
+    c["meta"]["near_tie_plants"] = len(plants)
+    c["meta"]["near_tie_gaps"] = [float("%.3g" % p["gap"]) for p in plants]
+
+
+def _plant_duplicates(rng, c):
+    """Exact duplicates: coincident targets, coincident sources (same normal), a source sitting exactly on a target."""
+    P, N = c["P"], c["N"]
+    srcm, tgtm = _roles(c)
+    S = np.flatnonzero(srcm); Tt = np.flatnonzero(tgtm)
+    k = 0
+    for _ in range(int(rng.integers(2, 6))):
+        if len(Tt) >= 2:
+            a, b = rng.choice(Tt, 2, replace=False)
+            P[b] = P[a]
+            k += 1
+    for _ in range(int(rng.integers(1, 4))):
+        if len(S) >= 2:
+            a, b = rng.choice(S, 2, replace=False)
+            P[b] = P[a]; N[b] = N[a]
+            k += 1
+    if len(S) and len(Tt):
+        a = int(rng.choice(S)); b = int(rng.choice(Tt))
+        if a != b:
+            P[b] = P[a]
+            k += 1
+    c["meta"]["exact_duplicate_copies"] = k
 
 
 def _table(c):
@@ -404,12 +627,43 @@ def _table(c):
     return orc.Table(c["P"], c["N"], src, tgt, c["max_nm"] / c["voxel"], c["ang"])
 
 
-def gen(ctx, i, cls):
+def _block_plan(k):
+    """k-th block_counts case -> (sources-sheet size, target-sheet size): one (or both) planted at 2**j-1, 2**j, 2**j+1 or total 600.
+    512 targets / 512 sources (the only multiples of 512 within 600 points) come round every 4th case."""
+    r = np.random.default_rng([20, 5, int(k)])
+    if k % 4 == 0:
+        v = 512
+    elif k % 4 == 2:
+        v = int(r.choice([256, 128, 64, 511, 513]))
+    else:
+        v = int(r.choice(BLOCK_VALUES))
+    lo = max(2, 20 - v)
+    hi = 600 - v
+    mode = int(r.integers(0, 4))
+    if mode == 0:
+        other = hi                                   # the maximum the quantifier allows: 600 points in total
+    elif mode == 1:
+        cands = [w for w in BLOCK_VALUES if lo <= w <= hi]
+        other = int(r.choice(cands)) if cands else hi
+    else:
+        other = int(r.integers(lo, min(hi, 160) + 1))
+    return (other, v) if (k // 4 + k) % 2 == 0 else (v, other)
+
+
+def _make(ctx, i, cls, ov=None):
     case = None
     regen = {"ge25_candidates": 0, "boundary_1e-9": 0, "distance_tie": 0, "no_source_or_target": 0, "poor": 0}
+    if cls == "block_counts" and ov is None:
+        nA, nB = _block_plan(i // len(CLASSES))
+        ov = {"nA": nA, "nB": nB}
     for attempt in range(80):
-        c = _build(ctx.rng(i, 100 + attempt), ctx.tier, cls)
-        src, tgt = (c["m1"], c["m2"]) if c["direction"] == "1to2" else (c["m2"], c["m1"])
+        rng_b = ctx.rng(i, 100 + attempt)
+        c = _build_dense_even(rng_b, ctx.tier) if cls == "dense_even" else _build(rng_b, ctx.tier, cls, ov)
+        if cls == "near_ties" or (cls in ("parallel", "tilted", "curved", "wavy", "dense", "wide_cone", "large_n") and rng_b.random() < 0.25):
+            _plant_near_ties(rng_b, c)
+        if cls == "exact_duplicates":
+            _plant_duplicates(rng_b, c)
+        src, tgt = _roles(c)
         if not src.any() or not tgt.any():
             regen["no_source_or_target"] += 1
             continue
@@ -420,16 +674,28 @@ def gen(ctx, i, cls):
         if T.margin < EPS:
             regen["boundary_1e-9"] += 1
             continue
-        if T.tie_gap < EPS:
+        if T.tie_gap < EPS and cls != "exact_duplicates":
             regen["distance_tie"] += 1
             continue
         st = T.stats()
+        cc = T.cand_counts()
+        st["mean_cand"] = round(float(cc.mean()), 3)
+        st["min_cand"] = int(cc.min())
         c["stats"] = st
+        c["cand_counts"] = cc
         rich = st["admissible"] >= 3 and st["tgt_contested"] >= 1 and st["inrange_rejected_cone"] + st["inrange_behind"] >= 1
         if cls in ("sandwich", "flipped_normals"):
             rich = rich and st["behind_in_backward_cone"] >= 1
         if cls == "thin_range":
             rich = rich and st["out_of_range_in_cone"] >= 1
+        if cls == "dense_even":
+            rich = st["mean_cand"] > 16.0
+        if cls == "block_counts":
+            rich = st["admissible"] >= 3
+        if cls == "near_ties":
+            rich = rich and len(c.get("near_tie_plants", [])) >= 2
+        if cls == "exact_duplicates":
+            rich = rich and T.tie_gap == 0.0
         if not rich and attempt < 30:
             regen["poor"] += 1
             continue
@@ -442,30 +708,38 @@ def gen(ctx, i, cls):
     case["capacity"] = "tight" if cls == "tight_capacity" or r2.random() < 0.15 else "25"
     case["perm_targets"] = bool(r2.random() < 0.35)
     case["f32_out"] = bool(r2.random() < 0.25)
+    case["extra_motions"] = (8 if ctx.tier == "quick" else 5) if cls == "dense_even" else 0
     case["summary"] = dict(case["meta"], cls=cls, voxel=case["voxel"], max_thickness=round(case["max_nm"], 6), max_angle=round(case["ang"], 6),
                            direction=case["direction"], stats=case["stats"], regenerated=regen, p0=[round(float(x), 6) for x in case["P"][0]],
                            kernel=[case["capacity"], case["perm_targets"], case["f32_out"]])
     return case
 
 
+def gen(ctx, i, cls):
+    return _make(ctx, i, cls)
+
+
 def nontrivial(case):
     st = case.get("stats") or {}
+    if case.get("cls") == "block_counts":
+        return bool(st) and st["admissible"] >= 3
     return bool(st) and st["admissible"] >= 3 and st["tgt_contested"] >= 1 and st["inrange_rejected_cone"] + st["inrange_behind"] >= 1
 
 
 # ---- driver --------------------------------------------------------------------------------------
 def _mt_call(ctx, label, c, P, N, m1, m2, voxel, max_nm, direction, num_threads=None):
+    """The arrays are handed over as they are (caller-owned; the driver modifies them in place between calls)."""
     ctx.c20_last = None
     ctx.c20_driver_call = True
     try:
-        ok, r = ctx.call(label, ctx.mt.measure_thickness_cpu, P.copy(), N.copy(), m1.copy(), m2.copy(), voxel,
+        ok, r = ctx.call(label, ctx.mt.measure_thickness_cpu, P, N, m1, m2, voxel,
                          max_thickness_nm=max_nm, max_angle_degrees=c["ang"], direction=direction, num_threads=num_threads, logger=ctx.log)
     finally:
         ctx.c20_driver_call = False
     info = ctx.c20_last
     if ok:
         try:
-            r = tuple(np.asarray(x) for x in r)
+            r = tuple(np.array(x) for x in r)
             ok = len(r) == 3
         except Exception:
             ok = False
@@ -492,28 +766,32 @@ def _same_pairing(r0, r1, scale, what):
 
 def run_case(ctx, c):
     if c.get("ood"):
-        for m in MON_CPU + MON_REL + MON_KER:
+        for m in MON_CPU + MON_REL + MON_KER + MON_ASG:
             ctx.ood(m)
         return
     rng = ctx.rng(c["i"], 1)
-    P, N, m1, m2 = c["P"], c["N"], c["m1"], c["m2"]
+    # caller-owned arrays of this history: modified IN PLACE between the calls, never re-allocated
+    P, N, m1, m2 = c["P"].copy(), c["N"].copy(), c["m1"].copy(), c["m2"].copy()
     d = c["direction"]
     ok0, r0, i0 = _mt_call(ctx, "measure_thickness_cpu", c, P, N, m1, m2, c["voxel"], c["max_nm"], d,
                            num_threads=ctx.nt_default if c["i"] % 4 == 0 else None)
     base_ok = ok0 and i0 is not None and i0["in_domain"]
-    # -- rigid motion of all points and normals
-    R = so3.random_rotations(rng, 1)[0]
-    t = rng.uniform(-300.0, 300.0, 3)
-    P2 = np.ascontiguousarray(P @ R.T + t)
-    N2 = N @ R.T
-    N2 = np.ascontiguousarray(N2 / np.linalg.norm(N2, axis=1, keepdims=True))
-    ok1, r1, i1 = _mt_call(ctx, "measure_thickness_cpu(moved)", c, P2, N2, m1, m2, c["voxel"], c["max_nm"], d)
-    if base_ok and ok1 and i1 is not None and i1["in_domain"] and i0["unique"] and i1["unique"]:
-        w = _same_pairing(r0, r1, 1.0, "rigid motion")
-        ctx.check("rigid_motion", w is None, w)
-    else:
-        ctx.ood("rigid_motion")
-    # -- voxel-size scaling with max_thickness scaled
+    # -- rigid motion(s) of all points and normals, written into the same arrays
+    for k in range(1 + int(c.get("extra_motions", 0))):
+        R = so3.random_rotations(rng, 1)[0]
+        t = rng.uniform(-300.0, 300.0, 3)
+        np.copyto(P, c["P"] @ R.T + t)
+        N2 = c["N"] @ R.T
+        np.copyto(N, N2 / np.linalg.norm(N2, axis=1, keepdims=True))
+        ok1, r1, i1 = _mt_call(ctx, "measure_thickness_cpu(moved in place)", c, P, N, m1, m2, c["voxel"], c["max_nm"], d)
+        if base_ok and ok1 and i1 is not None and i1["in_domain"] and i0["unique"] and i1["unique"]:
+            w = _same_pairing(r0, r1, 1.0, "rigid motion")
+            ctx.check("rigid_motion", w is None, w)
+        else:
+            ctx.ood("rigid_motion")
+    np.copyto(P, c["P"])
+    np.copyto(N, c["N"])
+    # -- voxel-size scaling with max_thickness scaled (arrays restored in place)
     s = float(rng.choice([2.0, 0.5, 10.0, 0.1])) if rng.random() < 0.4 else float(rng.uniform(0.1, 20.0))
     ok2, r2, i2 = _mt_call(ctx, "measure_thickness_cpu(voxel*s)", c, P, N, m1, m2, c["voxel"] * s, c["max_nm"] * s, d)
     if base_ok and ok2 and i2 is not None and i2["in_domain"] and i0["unique"]:
@@ -534,13 +812,102 @@ def run_case(ctx, c):
         ctx.check("direction_swap", w is None, w)
     else:
         ctx.ood("direction_swap")
-    _kernel_part(ctx, c, rng)
+    _kernel_part(ctx, c, rng, P, N, m1, m2)
+    _assignment_direct(ctx, c, rng, i0)
+    if c["i"] % 3 == 0:
+        _mutate_in_place_step(ctx, c, rng, P, N, m1, m2)
 
 
-def _kernel_part(ctx, c, rng):
+def _mutate_in_place_step(ctx, c, rng, P, N, m1, m2):
+    """Third kind of step of the history: a few points moved, a few normals turned, a few labels exchanged - all in place - then the
+    CPU path and the kernel are called again on the very same arrays (judged by the call monitors on the current values)."""
+    n = len(P)
+    k = max(1, n // 20)
+    max_vox = c["max_nm"] / c["voxel"]
+    idx = rng.choice(n, k, replace=False)
+    P[idx] += rng.normal(0.0, 0.05 * max_vox, (k, 3))
+    idx = rng.choice(n, k, replace=False)
+    N[idx] = _perturb(rng, N[idx], 0.5 * c["ang"])
+    idx = rng.choice(n, k, replace=False)
+    a, b = m1[idx].copy(), m2[idx].copy()
+    m1[idx] = b
+    m2[idx] = a
+    d = c["direction"]
+    _mt_call(ctx, "measure_thickness_cpu(points/normals/labels edited in place)", c, P, N, m1, m2, c["voxel"], c["max_nm"], d)
+    src, tgt = (m1, m2) if d == "1to2" else (m2, m1)
+    md = np.full((n, CAP), -1.0); mi = np.full((n, CAP), -1, dtype=np.int64); mc = np.zeros(n, dtype=np.int64)
+    ctx.numba.set_num_threads(ctx.nt)
+    try:
+        ctx.call("find_matches_parallel(edited in place)", ctx.mt.find_matches_parallel, P, N, src, tgt, np.flatnonzero(tgt), max_vox,
+                 float(np.cos(np.radians(c["ang"]))), md, mi, mc)
+    finally:
+        ctx.numba.set_num_threads(ctx.nt_default)
+
+
+def _synthetic_candidates(rng):
+    """Explicit candidate list for the assignment step with planted conflicts: two candidates sharing a source (or a target) whose
+    distances differ by 6e-9 .. 9e-7 (>= 2.5e-9 relative), the farther one carrying the lower index in half of the plants."""
+    ns = int(rng.integers(3, 41)); nt = int(rng.integers(3, 41))
+    n_points = ns + nt + int(rng.integers(0, 20))
+    ids = rng.permutation(n_points)
+    S = np.sort(ids[:ns])
+    Tt = np.sort(ids[ns:ns + nt]) if rng.random() < 0.8 else np.sort(rng.choice(n_points, nt, replace=False))
+    cand = {}
+    for a, s_ in enumerate(S.tolist()):
+        k = int(rng.integers(1, 7))
+        js = np.clip(np.round(a * nt / ns + rng.integers(-3, 4, k)).astype(int), 0, nt - 1)
+        for j in set(js.tolist()):
+            cand[(s_, int(Tt[j]))] = float(rng.uniform(3.0, 12.0))
+    planted = 0
+    by_s, by_t = {}, {}
+    for (s_, t_) in cand:
+        by_s.setdefault(s_, []).append(t_)
+        by_t.setdefault(t_, []).append(s_)
+    groups = [("s", k, v) for k, v in by_s.items() if len(v) >= 2] + [("t", k, v) for k, v in by_t.items() if len(v) >= 2]
+    order = rng.permutation(len(groups))[:8]
+    for q, gi in enumerate(order.tolist()):
+        kind, key, members = groups[gi]
+        lo, hi = sorted(int(x) for x in rng.choice(members, 2, replace=False))
+        far_low = bool(q % 2 == 0)
+        base = float(rng.uniform(3.0, 6.0))
+        gap = float(np.exp(rng.uniform(np.log(6e-9), np.log(9e-7))))
+        gap = max(gap, 2.5e-9 * base)
+        far, near = (lo, hi) if far_low else (hi, lo)
+        if kind == "s":
+            cand[(key, far)] = base + gap
+            cand[(key, near)] = base
+        else:
+            cand[(far, key)] = base + gap
+            cand[(near, key)] = base
+        planted += 1
+    items = list(cand.items())
+    lst = [items[j] for j in rng.permutation(len(items)).tolist()]
+    if rng.random() < 0.5:
+        fm = [(np.float64(d), np.int64(s_), np.int64(t_)) for (s_, t_), d in lst]
+    else:
+        fm = [(float(d), int(s_), int(t_)) for (s_, t_), d in lst]
+    return fm, n_points, planted
+
+
+def _assignment_direct(ctx, c, rng, info):
+    """Drive the assignment step directly: (a) a synthetic candidate list with planted near-tie conflicts, (b) the admissible pairs of
+    this case's own geometry with the oracle's distances, in shuffled order."""
+    pm = ctx.mt.process_matches_cpu2cpu
+    fm, n_points, planted = _synthetic_candidates(rng)
+    voxel = float(rng.choice([1.0, 0.784, 13.48])) if rng.random() < 0.5 else float(rng.uniform(0.3, 15.0))
+    ctx.call("process_matches_cpu2cpu(synthetic list)", pm, fm, n_points, voxel)
+    ctx.extra["assignment_conflicts_planted(gap 6e-9..9e-7)"] = ctx.extra.get("assignment_conflicts_planted(gap 6e-9..9e-7)", 0) + planted
+    if info is not None and info["T"].A.any():
+        T = info["T"]
+        si, tj = np.nonzero(T.A)
+        o = rng.permutation(len(si))
+        fm2 = [(np.float64(T.D[si[k], tj[k]]), np.int64(T.src[si[k]]), np.int64(T.tgt[tj[k]])) for k in o.tolist()]
+        ctx.call("process_matches_cpu2cpu(admissible pairs of the case)", pm, fm2, T.n, c["voxel"])
+
+
+def _kernel_part(ctx, c, rng, P, N, m1, m2):
     nb = ctx.numba
-    P, N = c["P"], c["N"]
-    src, tgt = (c["m1"], c["m2"]) if c["direction"] == "1to2" else (c["m2"], c["m1"])
+    src, tgt = (m1, m2) if c["direction"] == "1to2" else (m2, m1)
     n = len(P)
     ti = np.flatnonzero(tgt)
     if c["perm_targets"]:
@@ -586,7 +953,47 @@ def _kernel_part(ctx, c, rng):
 
 
 # ---- exhaustive sub-space: cone lattice ----------------------------------------------------------
+def _block_sweep(ctx):
+    """Every block-boundary count 2**k-1, 2**k, 2**k+1 (k = 4..9) as the number of TARGETS and as the number of SOURCES, both
+    directions (powers of two twice; 511/512/513 also with 600 points in total): CPU path + kernel (1 and N threads)."""
+    items = []
+    for v in BLOCK_VALUES:
+        for role in ("targets", "sources"):
+            for direction in ("1to2", "2to1"):
+                reps = 2 if (v & (v - 1)) == 0 else 1
+                for rep_ in range(reps):
+                    items.append((v, role, direction, rep_))
+    done = 0
+    for j, (v, role, direction, rep_) in enumerate(items):
+        r = ctx.rng(3 * 10 ** 6 + j, 5)
+        hi = 600 - v
+        lo = max(2, 20 - v)
+        other = hi if (v >= 511 and rep_ == 0 and direction == "1to2") else int(r.integers(lo, min(hi, 110) + 1))
+        ov = {"nA": other, "nB": v, "direction": direction} if role == "targets" else {"nA": v, "nB": other, "direction": direction}
+        c = _make(ctx, 3 * 10 ** 6 + j, "block_counts", ov)
+        ctx.cur = {"index": "extra", "cls": "block_sweep", "summary": {"planted": "%s=%d" % (role, v), "other_sheet": other, "direction": direction,
+                                                                      "case": core_jsonable(c.get("summary"))}}
+        if c.get("ood"):
+            continue
+        P, N, m1, m2 = c["P"].copy(), c["N"].copy(), c["m1"].copy(), c["m2"].copy()
+        _mt_call(ctx, "measure_thickness_cpu(block sweep)", c, P, N, m1, m2, c["voxel"], c["max_nm"], c["direction"])
+        _kernel_part(ctx, c, r, P, N, m1, m2)
+        done += 1
+    ctx.cur = {"index": "extra", "cls": "exhaustive"}
+    ctx.extra["block_sweep: sources / targets = 2**k-1, 2**k, 2**k+1 (k=4..9) x 2 directions (powers of two twice)"] = done
+
+
+def core_jsonable(x):
+    from vmon import core
+    return core.jsonable(x)
+
+
 def extra(ctx):
+    _cone_lattice(ctx)
+    _block_sweep(ctx)
+
+
+def _cone_lattice(ctx):
     """For every integer max_angle 1..30 and both directions: one source whose targets sit on a lattice of polar angles just
     inside / just outside the cone (forward and backward) x ranges inside / outside x 4 azimuths, embedded with a random rigid
     motion; judged by the call monitors (CPU path and kernel)."""
